@@ -221,6 +221,7 @@ func restIfNoReturn(block []ast.Stmt, rest []ast.Stmt) []ast.Stmt {
 
 func genBreaker() string {
 	pi := loadPkg(filepath.Join(*repo, "client"))
+	usePkg(pi)
 	var sb strings.Builder
 	sb.WriteString("-- GENERATED by /verif/go/extract from client/circuit_breaker.go — do not edit.\n")
 	sb.WriteString("import Rpcx.Basic\nset_option linter.unusedVariables false\nnamespace Rpcx.Gen\n\n")
